@@ -32,6 +32,18 @@ Theorem C19_load_no_effects :
 Proof. exact load_no_effects. Qed.
 Print Assumptions C19_load_no_effects.
 
+(* the display path of the web server (client.GetStatus and what is built on it): load without evaluation, then
+   graph construction for validation - node initialisation evaluates nothing, so the path adds no effect.
+   (What Node.init of /repo really does is outside `build`; it is covered by the canary monitor of tools/props/C19.py,
+   which drives client.GetStatus / GetAllStatus / the API handlers.) *)
+Theorem C19_display_no_effects :
+  forall (cron : string -> cronv) (sig_ok : string -> bool) (tokenize : string -> list (string * string))
+         (sh : string -> option string) (o : opts) (root : yv) (e : envt),
+  o_noEval o = true ->
+  effects (display cron sig_ok tokenize sh o root e) = [] /\ env_after (display cron sig_ok tokenize sh o root e) = e.
+Proof. exact display_no_effects. Qed.
+Print Assumptions C19_display_no_effects.
+
 (* With or without evaluation: the effects of a load that does not crash are those of env, then params, then logDir,
    and of nothing else - steps, handlers, conditions, mail settings and functions are not evaluated at load time. *)
 Theorem C19_eval_effects :
